@@ -25,7 +25,7 @@ LAT = geomdecide.lattice_points(-9.0, 9.0, 19)
 GEOMS = ['-1', '-1 3', '(-1 : -6) 3']
 OV_KEYS = ['mat', 'rho', 'u', 'fill', 'trcl', '*trcl', 'imp']
 OV_VALUES = {
-    'mat': ['2', '3', '0'], 'rho': ['-3.5', '-0.8'], 'u': ['7', '8'], 'fill': ['6', '5', '6 (0 -1 0)', '6 (9)'],
+    'mat': ['2', '3', '0'], 'rho': ['-3.5', '-0.8'], 'u': ['7', '8', '0'], 'fill': ['6', '5', '6 (0 -1 0)', '6 (9)'],
     # (an identity TRCL in the BUT list replaces an inherited TRCL like any other value)
     'trcl': ['(5 0 0)', '(0 5 1 0 1 0 -1 0 0 0 0 1)', '(0 0 0)', '(0 0 0 1 0 0 0 1 0 0 0 1)', '10'],
     '*trcl': ['(0 -5 0)', '(4 4 0 90 0 90 180 90 90 90 90 0)', '(0 0 0 0 90 90 90 0 90 90 90 0)'],
